@@ -171,8 +171,9 @@ def blockish_terms():
                     t = ('n', i, list(kids))
                     return ('p', s, t) if s else t
                 old = mk(10, so[0], [mk(11, so[1])]) if so[0] == 0 else mk(10, so[0], [('n', 11, [])])
-                # two children under the new state: siblings pruned at different Merkle levels give the parent a mask with both bits
-                new = mk(12, sn[0], [mk(13, sn[1]), mk(14, sn[2])]) if sn[0] == 0 else mk(12, sn[0], [('n', 13, []), ('n', 14, [])])
+                # two children under the new state: siblings pruned at different Merkle levels give the parent a mask with both bits;
+                # a node pruned at level 2 above a child that the original already holds pruned at level 1 gives a pruned branch with TWO significant levels (mask 0b11)
+                new = mk(12, sn[0], [mk(13, sn[1]), mk(14, sn[2])]) if sn[0] == 0 else mk(12, sn[0], [mk(13, 1 if sn[1] == 1 and sn[0] == 2 else 0, [('n', 15, [])]), ('n', 14, [])])
                 term = ('n', 0, [mk(1, st[0], [('n', 4, [])]), mk(2, st[1]), ('u', old, new), mk(3, st[2])])
                 yield f'block:{"".join(map(str, st + so + sn))}', term, True
 
